@@ -327,7 +327,9 @@ fn timeout_grid(rep: &mut Report) {
     // (the fifth: a timeout above the interval and every round overrunning the interval by
     // more than timeout - takes, so that a deadline measured from the scheduled tick instead of
     // from the start of the check would cut the next check short)
-    let cases: [(u64, u64, u64, HealthStatus); 6] = [
+    let cases: [(u64, u64, u64, HealthStatus); 7] = [
+        // (no check timeout at all: Duration::MAX)
+        (100, u64::MAX, 20, HealthStatus::Healthy),
         (40, 100, 60, HealthStatus::Healthy),
         (40, 100, 130, HealthStatus::Unhealthy),
         (100, 30, 20, HealthStatus::Healthy),
@@ -344,9 +346,9 @@ fn timeout_grid(rep: &mut Report) {
             };
             let b = HealthCheckWrapper::builder().with_context("r0".to_string(), "r0").with_checker(checker);
             let wrapper = if via_config {
-                b.with_config(HealthCheckConfig::builder().interval(Duration::from_millis(interval)).initial_delay(Duration::ZERO).timeout(Duration::from_millis(timeout)).failure_threshold(1).success_threshold(1).build()).build()
+                b.with_config(HealthCheckConfig::builder().interval(Duration::from_millis(interval)).initial_delay(Duration::ZERO).timeout(if timeout == u64::MAX { Duration::MAX } else { Duration::from_millis(timeout) }).failure_threshold(1).success_threshold(1).build()).build()
             } else {
-                b.with_interval(Duration::from_millis(interval)).with_initial_delay(Duration::ZERO).with_timeout(Duration::from_millis(timeout)).with_failure_threshold(1).with_success_threshold(1).build()
+                b.with_interval(Duration::from_millis(interval)).with_initial_delay(Duration::ZERO).with_timeout(if timeout == u64::MAX { Duration::MAX } else { Duration::from_millis(timeout) }).with_failure_threshold(1).with_success_threshold(1).build()
             };
             w.block_on(wrapper.start());
             // long enough for several checks to have been decided either way; the published status
@@ -354,7 +356,7 @@ fn timeout_grid(rep: &mut Report) {
             // decision) or the expected one
             let mut st = None;
             let mut wrong: Option<(u64, HealthStatus)> = None;
-            for step in 0..(6 * (interval + timeout + takes) / 10) {
+            for step in 0..(6 * (interval + if timeout == u64::MAX { 0 } else { timeout } + takes) / 10) {
                 w.block_on(async { tokio::time::sleep(Duration::from_millis(10)).await });
                 st = w.block_on(wrapper.get_status("r0"));
                 if let Some(s) = st {
